@@ -28,28 +28,76 @@ Proof.
   unfold last_ans. by rewrite last_snoc.
 Qed.
 
-(* --- a root view is a value: operations that do not write to its slot cannot change it *)
+(* --- a root view is a value: operations that do not write to its slot cannot change it.
+   A write reaches slot v directly, or through a Subset of v (a window, writes go to the parent); so "no
+   subset of v exists" is carried along as an invariant. *)
 Definition not_slot (v : Z) (o : op) : Prop :=
   match o with
-  | OGet v' _ | OVPut v' _ _ | OVDel v' _ | OVSnap _ v' => v' <> v
+  | OGet v' _ | OVPut v' _ _ | OVDel v' _ | OVApply v' _ | OVSnap _ v' => v' <> v
+  | OVSub src nv _ => src <> v /\ nv <> v
   | _ => True
   end.
+Definition no_sub_of (v : Z) (vs : avtable) : Prop := forall x pre p, vs !! x = Some (ASub pre p) -> p <> v.
 
-Lemma astep_keeps_slot a o v : not_slot v o -> a_views (fst (astep a o)) !! v = a_views a !! v.
+Lemma no_sub_insert v vs x n : no_sub_of v vs -> (forall pre p, n = ASub pre p -> p <> v) -> no_sub_of v (<[x := n]> vs).
 Proof.
-  intros Hn. destruct a as [c vs]. destruct o; cbn [astep a_chain a_views not_slot] in *; try done.
-  - by destruct (ident_eqb prev (a_front_id c)).
-  - destruct (ident_eqb i zero_id); cbn [fst a_views]; [by rewrite lookup_insert_ne|].
-    destruct (a_find c i); cbn [fst a_views]; [by rewrite lookup_insert_ne|by rewrite lookup_delete_ne].
-  - unfold awrite. destruct (vs !! v0); cbn [fst a_views]; [by rewrite lookup_insert_ne|done].
-  - unfold awrite. destruct (vs !! v0); cbn [fst a_views]; [by rewrite lookup_insert_ne|done].
-  - cbn [fst a_views]. by rewrite lookup_insert_ne.
+  intros H Hn x' pre p Hl. destruct (decide (x = x')) as [<-|Hne].
+  - rewrite lookup_insert in Hl. injection Hl as ->. by eapply Hn.
+  - rewrite lookup_insert_ne in Hl by done. by eapply H.
 Qed.
-Lemma afinal_keeps_slot a ops v : Forall (not_slot v) ops -> a_views (afinal a ops) !! v = a_views a !! v.
+Lemma no_sub_delete v vs x : no_sub_of v vs -> no_sub_of v (delete x vs).
 Proof.
-  revert a; induction ops as [|o ops IH]; intros a H; [done|].
+  intros H x' pre p Hl. destruct (decide (x = x')) as [<-|Hne].
+  - by rewrite lookup_delete in Hl.
+  - rewrite lookup_delete_ne in Hl by done. by eapply H.
+Qed.
+
+Lemma awrite_f_other fuel : forall vs x k val v, no_sub_of v vs -> x <> v ->
+  awrite_f fuel vs x k val !! v = vs !! v /\ no_sub_of v (awrite_f fuel vs x k val).
+Proof.
+  induction fuel as [|f IH]; intros vs x k val v Hns Hne; [done|]. cbn [awrite_f].
+  destruct (vs !! x) as [n|] eqn:E; [|done].
+  destruct n as [la Sm|la p|pre p].
+  - split; [by rewrite lookup_insert_ne|]. apply no_sub_insert; [done|]. intros ? ? [=].
+  - split; [by rewrite lookup_insert_ne|]. apply no_sub_insert; [done|]. intros ? ? [=].
+  - apply IH; [done|]. by eapply Hns.
+Qed.
+Lemma awrite_other vs x k val v : no_sub_of v vs -> x <> v ->
+  awrite vs x k val !! v = vs !! v /\ no_sub_of v (awrite vs x k val).
+Proof. apply awrite_f_other. Qed.
+Lemma awrite_fold_other p : forall vs x v, no_sub_of v vs -> x <> v ->
+  foldl (fun vs o => awrite vs x (pkey o) (dec_op o)) vs p !! v = vs !! v /\
+  no_sub_of v (foldl (fun vs o => awrite vs x (pkey o) (dec_op o)) vs p).
+Proof.
+  induction p as [|o p IH]; intros vs x v Hns Hne; [done|]. cbn [foldl].
+  destruct (awrite_other vs x (pkey o) (dec_op o) v Hns Hne) as [H1 H2].
+  destruct (IH _ x v H2 Hne) as [H3 H4]. split; [by rewrite H3|done].
+Qed.
+
+Lemma astep_keeps_slot a o v : no_sub_of v (a_views a) -> not_slot v o ->
+  a_views (fst (astep a o)) !! v = a_views a !! v /\ no_sub_of v (a_views (fst (astep a o))).
+Proof.
+  intros Hns Hn. destruct a as [c vs]. destruct o; cbn [astep a_chain a_views not_slot] in *; try done.
+  - by destruct (ident_eqb prev (a_front_id c)).
+  - destruct (ident_eqb i zero_id); cbn [fst a_views].
+    { split; [by rewrite lookup_insert_ne|]. apply no_sub_insert; [done|]. intros ? ? [=]. }
+    destruct (a_find c i); cbn [fst a_views].
+    + split; [by rewrite lookup_insert_ne|]. apply no_sub_insert; [done|]. intros ? ? [=].
+    + split; [by rewrite lookup_delete_ne|]. by apply no_sub_delete.
+  - cbn [fst a_views]. by apply awrite_other.
+  - cbn [fst a_views]. by apply awrite_other.
+  - cbn [fst a_views]. split; [by rewrite lookup_insert_ne|]. apply no_sub_insert; [done|]. intros ? ? [=].
+  - cbn [fst a_views]. destruct Hn as [Hsrc Hnv]. split; [by rewrite lookup_insert_ne|].
+    apply no_sub_insert; [done|]. intros ? ? [= _ <-]. done.
+  - cbn [fst a_views]. by apply awrite_fold_other.
+Qed.
+Lemma afinal_keeps_slot a ops v : no_sub_of v (a_views a) -> Forall (not_slot v) ops ->
+  a_views (afinal a ops) !! v = a_views a !! v /\ no_sub_of v (a_views (afinal a ops)).
+Proof.
+  revert a; induction ops as [|o ops IH]; intros a Hns H; [done|].
   apply Forall_cons in H as [Ho Hr]. cbn [afinal foldl]. fold (afinal (fst (astep a o)) ops).
-  rewrite IH by done. by apply astep_keeps_slot.
+  destruct (astep_keeps_slot a o v Hns Ho) as [H1 H2].
+  destruct (IH _ H2 Hr) as [H3 H4]. split; [by rewrite H3|done].
 Qed.
 
 Lemma aget_root vs v la Sm : vs !! v = Some (ARoot la Sm) -> aget vs v = overlay la Sm.
@@ -63,6 +111,13 @@ Proof.
   apply ident_eqb_false in Hz. rewrite Hz, Hf. cbn [fst a_views]. apply lookup_insert.
 Qed.
 
+Lemma open_keeps_no_sub a v i : no_sub_of v (a_views a) -> no_sub_of v (a_views (fst (astep a (OGet v i)))).
+Proof.
+  intros Hns. destruct a as [c vs]. cbn [astep a_chain a_views] in *.
+  destruct (ident_eqb i zero_id); cbn [fst a_views]; [apply no_sub_insert; [done|]; intros ? ? [=]|].
+  destruct (a_find c i); cbn [fst a_views]; [apply no_sub_insert; [done|]; intros ? ? [=]|by apply no_sub_delete].
+Qed.
+
 (* Theorem (view exactness, for every history): whatever happened before [pre], whatever happens after the
    view was opened [post: commits on the frontier or on stale parents, rollbacks, evictions, other views], a
    lookup through a view opened at commit i answers with the content the store had when i was the frontier. *)
@@ -70,15 +125,15 @@ Theorem view_get_exact pre v i post k e :
   let ops := pre ++ [OGet v i] ++ post ++ [OVGet v k] in
   wf_ops ast_init ops ->
   a_find (a_chain (afinal ast_init pre)) i = Some e -> i <> zero_id ->
-  Forall (not_slot v) post ->
+  no_sub_of v (a_views (afinal ast_init pre)) -> Forall (not_slot v) post ->
   last_ans (run st_init ops) = Some (AOpt (ce_state e !! k)).
 Proof.
-  intros ops Hwf Hf Hz Hpost. subst ops. rewrite store_refines_spec by done.
+  intros ops Hwf Hf Hz Hns Hpost. subst ops. rewrite store_refines_spec by done.
   rewrite !app_assoc. rewrite arun_last. rewrite <- !app_assoc.
   rewrite afinal_app. cbn [afinal foldl app]. fold (afinal (fst (astep (afinal ast_init pre) (OGet v i))) post).
   set (a1 := fst (astep (afinal ast_init pre) (OGet v i))).
   assert (H1 : a_views (afinal a1 post) !! v = Some (ARoot ∅ (ce_state e))).
-  { rewrite afinal_keeps_slot by done. by apply open_exact. }
+  { destruct (afinal_keeps_slot a1 post v (open_keeps_no_sub _ v i Hns) Hpost) as [-> _]. by apply open_exact. }
   destruct (afinal a1 post) as [c2 vs2]. cbn [astep snd a_views] in *.
   by rewrite (aget_root _ _ _ _ H1), overlay_empty.
 Qed.
@@ -87,15 +142,15 @@ Theorem view_has_exact pre v i post k e :
   let ops := pre ++ [OGet v i] ++ post ++ [OVHas v k] in
   wf_ops ast_init ops ->
   a_find (a_chain (afinal ast_init pre)) i = Some e -> i <> zero_id ->
-  Forall (not_slot v) post ->
+  no_sub_of v (a_views (afinal ast_init pre)) -> Forall (not_slot v) post ->
   last_ans (run st_init ops) = Some (ABool (match ce_state e !! k with Some _ => true | None => false end)).
 Proof.
-  intros ops Hwf Hf Hz Hpost. subst ops. rewrite store_refines_spec by done.
+  intros ops Hwf Hf Hz Hns Hpost. subst ops. rewrite store_refines_spec by done.
   rewrite !app_assoc. rewrite arun_last. rewrite <- !app_assoc.
   rewrite afinal_app. cbn [afinal foldl app]. fold (afinal (fst (astep (afinal ast_init pre) (OGet v i))) post).
   set (a1 := fst (astep (afinal ast_init pre) (OGet v i))).
   assert (H1 : a_views (afinal a1 post) !! v = Some (ARoot ∅ (ce_state e))).
-  { rewrite afinal_keeps_slot by done. by apply open_exact. }
+  { destruct (afinal_keeps_slot a1 post v (open_keeps_no_sub _ v i Hns) Hpost) as [-> _]. by apply open_exact. }
   destruct (afinal a1 post) as [c2 vs2]. cbn [astep snd a_views] in *.
   by rewrite (aget_root _ _ _ _ H1), overlay_empty.
 Qed.
@@ -104,15 +159,15 @@ Theorem view_scan_exact pre v i post p e :
   let ops := pre ++ [OGet v i] ++ post ++ [OVScan v p] in
   wf_ops ast_init ops ->
   a_find (a_chain (afinal ast_init pre)) i = Some e -> i <> zero_id ->
-  Forall (not_slot v) post ->
+  no_sub_of v (a_views (afinal ast_init pre)) -> Forall (not_slot v) post ->
   last_ans (run st_init ops) = Some (AScan (ascan (ce_state e) p)).
 Proof.
-  intros ops Hwf Hf Hz Hpost. subst ops. rewrite store_refines_spec by done.
+  intros ops Hwf Hf Hz Hns Hpost. subst ops. rewrite store_refines_spec by done.
   rewrite !app_assoc. rewrite arun_last. rewrite <- !app_assoc.
   rewrite afinal_app. cbn [afinal foldl app]. fold (afinal (fst (astep (afinal ast_init pre) (OGet v i))) post).
   set (a1 := fst (astep (afinal ast_init pre) (OGet v i))).
   assert (H1 : a_views (afinal a1 post) !! v = Some (ARoot ∅ (ce_state e))).
-  { rewrite afinal_keeps_slot by done. by apply open_exact. }
+  { destruct (afinal_keeps_slot a1 post v (open_keeps_no_sub _ v i Hns) Hpost) as [-> _]. by apply open_exact. }
   destruct (afinal a1 post) as [c2 vs2]. cbn [astep snd a_views] in *.
   by rewrite (aget_root _ _ _ _ H1), overlay_empty.
 Qed.
@@ -213,19 +268,20 @@ Qed.
 
 (* --- writes through a view: seen by the view, never by the manager or by another root view *)
 Theorem view_write_local a v k x v' la Sm :
-  v' <> v -> a_views a !! v' = Some (ARoot la Sm) ->
+  v' <> v -> no_sub_of v' (a_views a) -> a_views a !! v' = Some (ARoot la Sm) ->
   a_chain (fst (astep a (OVPut v k x))) = a_chain a /\
   aget (a_views (fst (astep a (OVPut v k x)))) v' = overlay la Sm.
 Proof.
-  intros Hne Hv'. split; [by destruct a|].
-  apply aget_root. rewrite astep_keeps_slot; [done|]. cbn [not_slot]. done.
+  intros Hne Hns Hv'. split; [by destruct a|].
+  apply aget_root. destruct (astep_keeps_slot a (OVPut v k x) v' Hns) as [-> _]; [|done]. cbn [not_slot]. done.
 Qed.
 
 Theorem view_write_seen a v k x la Sm :
   a_views a !! v = Some (ARoot la Sm) ->
   aget (a_views (fst (astep a (OVPut v k x)))) v !! k = Some x.
 Proof.
-  intros Hv. destruct a as [c vs]. cbn [astep a_views fst] in *. unfold awrite. rewrite Hv.
+  intros Hv. destruct a as [c vs]. cbn [astep a_views fst] in *. unfold awrite, afuel. cbn [awrite_f]. rewrite Hv.
+  cbn [aset_local alocal_of].
   rewrite (aget_root _ v (<[k := Some x]> la) Sm) by apply lookup_insert.
   by rewrite overlay_lookup, lookup_insert.
 Qed.
@@ -277,4 +333,20 @@ Proof.
   assert (H : Sorted kvo_le (merge_sort kvo_le (map_to_list la))) by apply Sorted_merge_sort, _.
   induction H as [|kv l Hs IH Hhd]; [constructor|]. cbn [map]. constructor; [done|].
   destruct Hhd as [|kv' l' Hle]; constructor. unfold kvo_le in Hle. by destruct kv as [? []], kv' as [? []].
+Qed.
+
+(* a Subset(prefix) of a view is a window onto it: key k of the subset is key prefix++k of the view *)
+Theorem subset_is_window vs v nv la Sm pre k :
+  v <> nv -> vs !! v = Some (ARoot la Sm) -> vs !! nv = Some (ASub pre v) ->
+  aget vs nv !! k = aget vs v !! (pre ++ k).
+Proof.
+  intros Hne Hv Hnv. unfold aget, afuel.
+  assert (1 < size vs)%nat as Hsz.
+  { rewrite <- (insert_id vs v _ Hv), <- (insert_delete_insert vs).
+    rewrite map_size_insert_None by apply lookup_delete.
+    assert (delete v vs !! nv = Some (ASub pre v)) as Hd by (by rewrite lookup_delete_ne).
+    assert (delete v vs <> ∅) as Hnz by (intros E; by rewrite E, lookup_empty in Hd).
+    apply map_size_non_empty_iff in Hnz. lia. }
+  destruct (size vs) as [|[|n]]; try lia.
+  cbn [acontent]. rewrite Hnv, Hv. by rewrite lookup_sub_map.
 Qed.
